@@ -360,6 +360,22 @@ def coqchk(pid, timeout=3000):
     return ok, (m.group(0) if m else out[-1500:])
 
 
+def fallback_tree(pid, check_mod, workdir):
+    """The model of a property could not be built against the regenerated Generated.v (an anchor vanished from the
+    source). To still look for a failing input, build model + checker in a private tree against the committed
+    baseline gen/Generated.baseline (the constants of the unchanged tree). Returns the tree or None."""
+    base = os.path.join(COQ_MAIN, "gen", "Generated.baseline")
+    if not os.path.exists(base):
+        return None
+    tree = os.path.join(workdir, "fallback-coq")
+    os.makedirs(tree, exist_ok=True)
+    sh(["rsync", "-a", "--delete", "--exclude", "gen/Generated.v*", "--exclude", "gen/.Generated*",
+        "--exclude", "gen/Generated.glob", COQ + "/", tree + "/"], timeout=600)
+    shutil.copy(base, os.path.join(tree, "gen", "Generated.v"))
+    rc, out, _ = sh(["make", "-j16", "-k", "check/%s.vo" % check_mod], cwd=tree, timeout=1800)
+    return tree if rc == 0 else None
+
+
 def theorems_in(path):
     txt = open(path).read()
     return re.findall(r"^\s*Theorem\s+(\w+)", txt, flags=re.M)
@@ -500,7 +516,7 @@ def parse_id_key_list(s):
     return [(int(a), b) for a, b in re.findall(r'\(\s*(\d+)(?:%N)?\s*,\s*"([^"]*)"(?:%string)?\s*\)', s)]
 
 
-def eval_cases(pid, prop, workdir, cases, tag, jobs=16):
+def eval_cases(pid, prop, workdir, cases, tag, jobs=16, coq_dir=None):
     """Returns dict(mismatch=[ids], violation=[(id,key)], nontrivial=[ids], errors=[text])."""
     shard_n = prop.get("shard", 500)
     shards = [cases[i:i + shard_n] for i in range(0, len(cases), shard_n)]
@@ -516,7 +532,7 @@ def eval_cases(pid, prop, workdir, cases, tag, jobs=16):
             name = "cases_%s_%s_%d" % (pid, tag, i)
             path = os.path.join(workdir, name + ".v")
             write_shard(pid, prop, path, sh_cases)
-            p = subprocess.Popen(["timeout", str(to), "coqc", "-Q", COQ, "MevVerif", "-w", "-notation-overridden",
+            p = subprocess.Popen(["timeout", str(to), "coqc", "-Q", coq_dir or COQ, "MevVerif", "-w", "-notation-overridden",
                                   path], cwd=workdir, stdout=subprocess.PIPE, stderr=subprocess.STDOUT, text=True,
                                  errors="replace")
             running.append((i, p, path))
